@@ -52,6 +52,21 @@ def levels (d : Dict) : Nat → List Nat → List Nat
 /-- `supertypesIterator( ed )`: every supertype, breadth first, once per path -/
 def supWalk (d : Dict) (n : Nat) : List Nat := levels d (d.length + 1) (supsOf d n)
 
+/-- the subtype lists of the registry: the entities that name `n` among their supertypes, in declaration order -/
+def subsOf (d : Dict) (n : Nat) : List Nat := (d.filter (fun e => e.sups.contains n)).map (·.name)
+
+/-- the same FIFO walk over any successor function (`recursiveEntDescripIterator` is shared by both iterators) -/
+def levelsG (next : Nat → List Nat) : Nat → List Nat → List Nat
+  | 0, _ => []
+  | _ + 1, [] => []
+  | f + 1, l => l ++ levelsG next f (l.flatMap next)
+
+/-- `subtypesIterator( ed )`: every subtype, breadth first, once per path -/
+def subWalk (d : Dict) (n : Nat) : List Nat := levelsG (subsOf d) (d.length + 1) (subsOf d n)
+
+/-- `edL` of `lazyRefs::checkAnInvAttr`: the inverted entity and everything `subtypesIterator` reaches from it -/
+def candEntities (d : Dict) (over : Nat) : List Nat := over :: subWalk d over
+
 def dedupBy {α} [DecidableEq α] : List α → List α
   | [] => []
   | a :: t => if a ∈ t then dedupBy t else a :: dedupBy t
